@@ -400,6 +400,11 @@ def _cmp_leaves(a, b, what, fails, meta):
     for (p, x), (_, y) in zip(la, lb):
         n += 1
         xa, ya = np.asarray(x), np.asarray(y)
+        if xa.dtype == object or ya.dtype == object:
+            # non-array leaves (e.g. the NULL sentinel of unset private fields): compare by type and representation
+            if type(x) is not type(y) or repr(x) != repr(y):
+                fails.append(dict(sig=f"{what}:non-array-leaf-differs", detail=dict(meta, leaf=p, original=repr(x)[:80], imported=repr(y)[:80])))
+            continue
         if xa.dtype != ya.dtype or xa.shape != ya.shape:
             fails.append(dict(sig=f"{what}:leaf-dtype-or-shape-differs", detail=dict(meta, leaf=p, original=[str(xa.dtype), list(xa.shape)], imported=[str(ya.dtype), list(ya.shape)])))
         elif not (np.array_equal(xa, ya, equal_nan=True) if xa.dtype.kind in "fc" else np.array_equal(xa, ya)):
@@ -453,7 +458,14 @@ def run_case(case):
 
     M = menu(case["seed"])
     ops = [op for d in case["devs"] for op in M[d]]
-    spec = _apply(base_spec(), ops)
+    try:
+        spec = _apply(base_spec(), ops)
+    except (TypeError, KeyError, IndexError) as e:
+        # the two deviations do not compose (one removes what the other edits): not a scene of the enumeration
+        return dict(ok=True, nontrivial=0, evals=1, outcome="deviations-do-not-compose", detail=dict(devs=case["devs"], error=repr(e)[:200]))
+    names_ = [o.get("kw", {}).get("name") for o in spec.get("objects", []) if isinstance(o, dict)]
+    if len([n for n in names_ if n is not None]) != len({n for n in names_ if n is not None}):
+        return dict(ok=True, nontrivial=0, evals=1, outcome="deviations-add-the-same-object-twice", detail=dict(devs=case["devs"]))
     meta = dict(devs=case["devs"])
     fails, evals = [], 0
     tag = "+".join(d.split(":")[0] for d in case["devs"]) or "base"
